@@ -69,6 +69,7 @@ type opts struct {
 	startingNodes                              func() ([]dht.Addr, error)
 	nosec                                      bool
 	secure                                     bool // enforce the BEP 42 security extension
+	slowRate                                   bool // with burst >= 0: one token every 4 s (C01: waiting replies must not stop the node)
 }
 
 type H struct {
@@ -95,6 +96,7 @@ type H struct {
 	failNext int32 // inject a write failure on the next n writes
 	tn       int
 	node     string // name of this node in multi-node traces ("" otherwise)
+	resendNs int64  // when non-zero, the resend delay of queries (default one hour)
 }
 
 func fail(format string, a ...any) {
@@ -191,11 +193,18 @@ func newHAt(rng *rand.Rand, tr *sim.Trace, seg int, o opts, local string, node s
 	}
 	cfg.QueryResendDelay = o.resend
 	if cfg.QueryResendDelay == nil {
-		cfg.QueryResendDelay = func() time.Duration { return time.Hour }
+		cfg.QueryResendDelay = func() time.Duration {
+			if d := atomic.LoadInt64(&h.resendNs); d != 0 {
+				return time.Duration(d)
+			}
+			return time.Hour
+		}
 	}
 	switch {
 	case o.burst < 0:
 		h.lim = rate.NewLimiter(rate.Inf, 1)
+	case o.slowRate:
+		h.lim = rate.NewLimiter(0.25, o.burst)
 	case o.ratePerSec == 0:
 		h.lim = rate.NewLimiter(1e-9, o.burst)
 	default:
